@@ -116,8 +116,6 @@ func main() {
 		runAll(p, n, par, os.Args[5], os.Args[6], func(in *inst, i int) error {
 			return in.stress(ops, int64(i))
 		})
-	case "probe":
-		probe()
 	case "dump":
 		dumpMain(os.Args[2:])
 	default:
